@@ -50,3 +50,9 @@ META["C16"] = {
     "note": "Each Tracer operation is atomic under its mutex (the enumeration relies on it); re-Init of a live slot is outside the domain; schedule-dependent failures are reported with the full history but cannot be shrunk.",
     "technique": "stateful model-based testing: bounded-exhaustive operation sequences + rapid random sequences + concurrency perturbation under -race",
 }
+
+META["C15"] = {
+    "text": "The HTTP/2 connection wrapper is (a) compared call-by-call with the unwrapped scripted connection on arbitrary, corrupted and truncated byte streams with injected short writes, timeouts and errors (plus a coverage-guided native fuzz target in the thorough tier), and (b) driven with generated well-formed multi-stream exchanges (shared HPACK state, CONTINUATION, padding, trailers in both directions, resets, refusal+retry, GOAWAY, streams open at close) under drawn frame interleavings and two byte partitions; traces are compared with a per-stream reference (request line/headers, reference-parsed messages, status/headers/trailers, final event). Exploration by seeded generation with shrinking.",
+    "note": "Frames are produced with x/net/http2's Framer and hpack encoder (trusted); 1xx responses and client GOAWAY are only covered by the byte-level part; the 3 s retry timer path is avoided by always closing the connection.",
+    "technique": "property-based testing (rapid) with a reference model + differential transparency check + native coverage-guided fuzzing",
+}
